@@ -836,7 +836,7 @@ class Interp:
             if mm and name in mm:
                 return ModelMethod(o, mm[name], name)
             return self.class_attr(o, o.cls, name)
-        if isinstance(o, (SV, MList, MDict)):
+        if isinstance(o, (SV, MList, MDict, V.MDefaultDict, V.DDEntry)):
             return self.models.sym_attr(self, o, name)
         if isinstance(o, (Closure, BoundMethod)):
             if name == "__name__":
@@ -884,6 +884,8 @@ class Interp:
                     break
                 return raw
         if inst is not None:
+            if getattr(inst, "oid", None) == -7:
+                raise Unsupported(f"the contract's setup does not provide attribute '{name}' of {cls.__name__} (new state introduced by the code?)")
             raise PyRaise(AttributeError(f"'{cls.__name__}' object has no attribute '{name}'"))
         raise PyRaise(AttributeError(f"type object '{cls.__name__}' has no attribute '{name}'"))
 
@@ -898,7 +900,7 @@ class Interp:
         return self.get_item(o, k)
 
     def get_item(self, o, k):
-        if not deep_symbolic(k) and not isinstance(o, (SV, MList, MDict, Obj)):
+        if not deep_symbolic(k) and not isinstance(o, (SV, MList, MDict, Obj, V.MDefaultDict, V.DDEntry)):
             if isinstance(o, dict) and deep_symbolic(o) is False or isinstance(o, (dict, list, tuple, str)):
                 try:
                     return o[k]
@@ -1032,6 +1034,9 @@ class Interp:
         return self.binop(e.op, self.eval(e.left, env, module), self.eval(e.right, env, module))
 
     def binop(self, op, a, b):
+        for x in (a, b):
+            if isinstance(x, Obj) and hasattr(x.cls, "__pyvc_binop__"):
+                return x.cls.__pyvc_binop__(self, op, a, b)
         if not deep_symbolic(a) and not deep_symbolic(b):
             import operator
             table = {ast.Add: operator.add, ast.Sub: operator.sub, ast.Mult: operator.mul, ast.Mod: operator.mod,
